@@ -85,8 +85,8 @@ func checkEnvelope(rec *stats.Recorder, c callCase) string {
 	if p, pv, st := hx.Try(func() { _, err, sl, _, _ = w.do(c.Config, &c.Call, &c.Outcome, nil) }); p {
 		return fmt.Sprintf("client call panicked: %v\n%s", pv, st)
 	}
-	if err != nil || sl == nil || len(sl.wire) != 1 {
-		return "" // the call itself is C02's subject
+	if sl == nil || len(sl.wire) != 1 {
+		return "" // nothing, or more than one request, was sent: the call itself is C02's subject
 	}
 	cp := sl.wire[0]
 	rec.Label("envelope_checked", 1)
@@ -180,6 +180,12 @@ func checkEnvelope(rec *stats.Recorder, c callCase) string {
 		}
 	}
 	// ---- response ----
+	if err != nil {
+		// the call failed (an error outcome was drawn, or the peer could not make sense of the request): the request that
+		// was sent has been judged above, the response of a failing call is C02's and C08's subject
+		rec.Label("envelope_request_only", 1)
+		return ""
+	}
 	if v := cp.RespHdr.Get("X-RestLi-Protocol-Version"); v != "2.0.0" {
 		return fail("response X-RestLi-Protocol-Version is %q, want 2.0.0", v)
 	}
